@@ -73,6 +73,13 @@ def run(ctx):
     import c06
     c06.check_edge_selection(ctx_alias(ctx, "R01.7"), [f for f in ctx.db.fns.values() if f.crate == "wac_graph"])
     validator_features(ctx)
+    # instance / resource bookkeeping of the type encoder (C08 R08.10, C14 R14.8): a duplicate or mis-named import is a late
+    # validation failure
+    import c08, c14
+    a = engine.AliasCtx(ctx, {"R08.10": "R01.3", "R14.8": "R01.3"})
+    c08.instance_registration(a)
+    c08.resource_alias_names(a)
+    c14.check_key_agreement(a)
 
 
 def forwarding_wrappers(ctx, rule="R01.1"):
